@@ -5,6 +5,7 @@ V = os.path.dirname(os.path.dirname(os.path.abspath(__file__)))
 INC = os.path.join(V, "seeded", "_incoming")
 mp = os.path.join(V, "seeded", "matrix.json")
 matrix = json.load(open(mp)) if os.path.exists(mp) else {}
+OFFSET = int(os.environ.get("SEED_OFFSET", "0"))   # round 2: SEED_OFFSET=2 -> ids Cxx-3, Cxx-4
 rows = []
 for pid in sorted(os.listdir(INC)):
     for n in (1, 2):
@@ -14,11 +15,11 @@ for pid in sorted(os.listdir(INC)):
         c = json.load(open(cf))
         if c.get("status") != "CONFIRMED":
             continue
-        sid = "%s-%d" % (pid, n)
+        sid = "%s-%d" % (pid, n + OFFSET)
         d = os.path.join(V, "seeded", sid)
         os.makedirs(d, exist_ok=True)
         shutil.copy(os.path.join(INC, pid, "patch%d.diff" % n), os.path.join(d, "patch.diff"))
-        for f in glob.glob(os.path.join(INC, pid, "demo%d.*" % n)) + glob.glob(os.path.join(INC, pid, "demo_deps.h")) + glob.glob(os.path.join(INC, pid, "run_demo.sh")):
+        for f in glob.glob(os.path.join(INC, pid, "demo%d.*" % n)) + glob.glob(os.path.join(INC, pid, "demo_deps.h")) + glob.glob(os.path.join(INC, pid, "demo_common.h")) + glob.glob(os.path.join(INC, pid, "run_demo.sh")):
             shutil.copy(f, d)
         note = open(os.path.join(INC, pid, "note%d.md" % n), errors="replace").read() if os.path.exists(os.path.join(INC, pid, "note%d.md" % n)) else ""
         m = matrix.get("%s/%d" % (pid, n), {})
